@@ -485,7 +485,7 @@ def table_function(case, coords_list):
     return pfn
 
 
-def run_grid_case(ctx, drv, case):
+def run_grid_case(ctx, drv, case, grid_obj=None, report_case=None, step=None):
     """one grid, one function: integrate -> surpluses -> interpolate ; HierarchizationLSG directly ; model"""
     from sparseSpACE import Grid as _G  # noqa: F401  (must be imported before Hierarchization: circular imports)
     from sparseSpACE.Hierarchization import HierarchizationLSG
@@ -497,8 +497,18 @@ def run_grid_case(ctx, drv, case):
     probe = "global-roundtrip" if is_global else "local-roundtrip"
     ok = True
     dim = len(case["a"])
+    # a grid OBJECT may be handed over from the previous step of a history (stale state inside it must not matter);
+    # violations are then reported with the whole history as the replayable case
+    rcase = case if report_case is None else report_case
+    if step is not None:
+        tags["history_step"] = step
     try:
-        g, a, b = build_grid(case)
+        if grid_obj is None:
+            g, a, b = build_grid(case)
+        else:
+            g = grid_obj
+            a = np.array([float(Fraction(t)) for t in case["a"]])
+            b = np.array([float(Fraction(t)) for t in case["b"]])
         if is_global:
             gp = [[float(Fraction(t)) for t in xs] for xs in case["points"]]
             gl = [list(ls) for ls in case["levels"]]
@@ -537,7 +547,7 @@ def run_grid_case(ctx, drv, case):
         if relax > 1.0:
             ctx.count("tolerance_scaled_by_condition")
     except Exception as e:
-        ctx.violation(probe, dict(tags, kind="exception"), case,
+        ctx.violation(probe, dict(tags, kind="exception"), rcase,
                       {"exception": exc_kind(e), "where": traceback.format_exc().strip().split("\n")[-3].strip()[:160],
                        "message": str(e)[:160]})
         ctx.count("grid_exception_" + fam)
@@ -551,7 +561,7 @@ def run_grid_case(ctx, drv, case):
         err = float(np.max(np.abs(nodal.T - table)))
         if not err <= NODE_TOL * relax * scale:
             i = int(np.argmax(np.max(np.abs(nodal.T - table), axis=0)))
-            ctx.violation(probe, dict(tags, kind="nodal-mismatch"), case,
+            ctx.violation(probe, dict(tags, kind="nodal-mismatch"), rcase,
                           {"node": nodes[i], "expected": table[:, i].tolist(), "interpolated": nodal[i].tolist(), "max_error": err})
             ok = False
     # ---- oracle 2: HierarchizationLSG called directly; B (x) ... (x) B applied to its result gives the table back
@@ -563,22 +573,22 @@ def run_grid_case(ctx, drv, case):
                 for d in range(dim):
                     t = np.moveaxis(np.tensordot(mats[d], t, axes=([1], [d])), 0, d)
                 if not np.max(np.abs(t.reshape(-1) - table[n])) <= NODE_TOL * relax * scale:
-                    ctx.violation("hierarchization-direct", dict(tags, kind="collocation-residual"), case,
+                    ctx.violation("hierarchization-direct", dict(tags, kind="collocation-residual"), rcase,
                                   {"component": n, "max_error": float(np.max(np.abs(t.reshape(-1) - table[n])))})
                     ok = False
                     break
             if not np.allclose(direct, surplus, rtol=0, atol=1e-9 * scale):
-                ctx.violation("hierarchization-direct", dict(tags, kind="differs-from-integrate"), case,
+                ctx.violation("hierarchization-direct", dict(tags, kind="differs-from-integrate"), rcase,
                               {"max_diff": float(np.max(np.abs(direct - surplus)))})
                 ok = False
             for d in range(dim):
                 if num_points[d] > 1:
                     c = np.linalg.cond(mats[d])
                     if not c < 1e10:
-                        ctx.violation("pole-system-solvable", dict(tags, kind="ill-conditioned"), case, {"dim": d, "cond": float(c)})
+                        ctx.violation("pole-system-solvable", dict(tags, kind="ill-conditioned"), rcase, {"dim": d, "cond": float(c)})
                         ok = False
         except Exception as e:
-            ctx.violation("hierarchization-direct", dict(tags, kind="exception"), case,
+            ctx.violation("hierarchization-direct", dict(tags, kind="exception"), rcase,
                           {"exception": exc_kind(e), "message": str(e)[:200]})
             ok = False
     # ---- correspondence with the model (families whose basis objects have a model)
@@ -595,35 +605,35 @@ def run_grid_case(ctx, drv, case):
         for d in range(dim):
             ans = drv.ask("dim %s %s" % (vec(g.get_coordinates_dim(d)), ";".join(specs[d])))
             if ans != "ok":
-                ctx.corr_break("C10/dim-accepted", case, {"dim": d, "model": ans})
+                ctx.corr_break("C10/dim-accepted", rcase, {"dim": d, "model": ans})
                 return False
         for d in range(dim):
             rows = drv.ask("colloc %d" % d).split(";")
             mm = np.array([[float(Fraction(t)) for t in row.split(",")] for row in rows])
             if mm.shape != mats[d].shape or not np.allclose(mm, mats[d], rtol=0, atol=TOL * max(1.0, float(np.max(np.abs(mm))))):
-                ctx.corr_break("C10/collocation-matrix", case, {"dim": d, "impl": mats[d].tolist()[:4], "model": mm.tolist()[:4]})
+                ctx.corr_break("C10/collocation-matrix", rcase, {"dim": d, "impl": mats[d].tolist()[:4], "model": mm.tolist()[:4]})
                 ok = False
         for n in range(case["outlen"]):
             s = drv.ask("hier " + vec(table[n]))
             if s in ("none", "bad-op"):
-                ctx.corr_break("C10/surpluses", case, {"component": n, "model": s, "impl": surplus[n].tolist()[:8]})
+                ctx.corr_break("C10/surpluses", rcase, {"component": n, "model": s, "impl": surplus[n].tolist()[:8]})
                 ok = False
                 continue
             ms = pvec(s)
             sm = np.array([float(x) for x in ms])
             if sm.shape != surplus[n].shape or not np.allclose(sm, surplus[n], rtol=0, atol=TOL * relax * max(scale, float(np.max(np.abs(sm))))):
-                ctx.corr_break("C10/surpluses", case, {"component": n, "impl": surplus[n].tolist()[:8], "model": sm.tolist()[:8]})
+                ctx.corr_break("C10/surpluses", rcase, {"component": n, "impl": surplus[n].tolist()[:8], "model": sm.tolist()[:8]})
                 ok = False
                 continue
             if n == 0 or n_nodes <= 200:
                 mn = pvec(drv.ask("nodes " + s))
                 if [float(x) for x in mn] != table[n].tolist():
-                    ctx.corr_break("C10/model-nodal-identity", case, {"component": n})
+                    ctx.corr_break("C10/model-nodal-identity", rcase, {"component": n})
                     ok = False
             for k, y in enumerate(offpts):
                 mv = drv.ask("interp %s %s" % (s, vec(y)))
                 if mv == "bad-op" or not near(Fraction(mv), off[k][n], scale, TOL * relax):
-                    ctx.corr_break("C10/interpolate-off-node", case, {"point": y, "component": n, "impl": float(off[k][n]), "model": mv})
+                    ctx.corr_break("C10/interpolate-off-node", rcase, {"point": y, "component": n, "impl": float(off[k][n]), "model": mv})
                     ok = False
                     break
         ctx.count("model_compared")
@@ -648,7 +658,7 @@ def run_grid_case(ctx, drv, case):
             model = {t.split(":")[0]: t for t in ans.split(";")} if ans not in ("assert", "bad-op") else {}
             model = {k: v for k, v in model.items() if k in impl}
             if model != impl:
-                ctx.corr_break("C10/knot-selection", case, {"dim": d, "impl": sorted(impl.values())[:6], "model": ans[:300]})
+                ctx.corr_break("C10/knot-selection", rcase, {"dim": d, "impl": sorted(impl.values())[:6], "model": ans[:300]})
                 ok = False
             # the refinement-TREE construction (`RTree.ofPoints`, `RTree.grid`) the theorems `collocation_unitriangular`
             # and `hier_lagrange_solvable` speak about: the point set must be a valid tree and carry the same knots
@@ -656,7 +666,7 @@ def run_grid_case(ctx, drv, case):
                 tans = drv.ask("tk %d %s %s" % (case["p"], vec(xs_all), ",".join(str(int(l)) for l in ls_all)))
                 tmodel = {t.split(":")[0]: t for t in tans.split(";")} if tans not in ("no-tree", "bad-op") else {}
                 if tmodel != impl:
-                    ctx.corr_break("C10/tree-knot-selection", case, {"dim": d, "impl": sorted(impl.values())[:6], "model": tans[:300]})
+                    ctx.corr_break("C10/tree-knot-selection", rcase, {"dim": d, "impl": sorted(impl.values())[:6], "model": tans[:300]})
                     ok = False
                 ctx.count("tree_model_compared")
             # level-triangular structure of the collocation matrix (hypothesis of `unitriangular_unique`)
@@ -667,7 +677,7 @@ def run_grid_case(ctx, drv, case):
                 for j in range(num_points[d]):
                     want = 1.0 if i == j else (0.0 if lv_d[j] >= lv_d[i] else None)
                     if want is not None and abs(M[i, j] - want) > 1e-12:
-                        ctx.corr_break("C10/level-triangular", case, {"dim": d, "i": i, "j": j, "entry": float(M[i, j])})
+                        ctx.corr_break("C10/level-triangular", rcase, {"dim": d, "i": i, "j": j, "entry": float(M[i, j])})
                         ok = False
     # ---- oracle 3: polynomial reproduction off the nodes (complete basis: boundary on)
     if case["fkind"] == "poly" and n_nodes and off is not None:
@@ -678,7 +688,7 @@ def run_grid_case(ctx, drv, case):
         if not err <= 1e-8 * relax * sc:
             k = int(np.argmax(np.max(np.abs(off - exact), axis=1)))
             ctx.violation("poly-reproduction" if within else "poly-literal-degree",
-                          dict(tags, within_supported=within, reason=case.get("reason", "")), case,
+                          dict(tags, within_supported=within, reason=case.get("reason", "")), rcase,
                           {"point": offpts[k], "expected": exact[k].tolist(), "interpolated": off[k].tolist(),
                            "degrees": case["degrees"], "points_per_dim": num_points})
             ok = False
@@ -708,12 +718,12 @@ def run_grid_case(ctx, drv, case):
                 dv = float(bobj.get_first_derivative(x))
                 st, fd = fd_compare(bobj, dv, x, hh, span)
             except Exception as e:
-                ctx.violation("basis-derivative", dict(btags, exc=exc_kind(e)), case, {"dim": d, "basis": j, "x": x, "exception": str(e)[:200]})
+                ctx.violation("basis-derivative", dict(btags, exc=exc_kind(e)), rcase, {"dim": d, "basis": j, "x": x, "exception": str(e)[:200]})
                 ok = False
                 continue
             ctx.count("grid_basis_derivative_checked")
             if st != "ok":
-                ctx.violation("basis-derivative", dict(btags, kind=st) if st != "mismatch" else btags, case,
+                ctx.violation("basis-derivative", dict(btags, kind=st) if st != "mismatch" else btags, rcase,
                               {"dim": d, "basis": j, "x": x, "get_first_derivative": dv, "finite_difference": fd})
                 ok = False
             sp = spec_of(bobj)
@@ -723,10 +733,10 @@ def run_grid_case(ctx, drv, case):
                 try:
                     di = float(bobj.get_first_derivative(xq))
                     if mv == "bad-op" or not near(Fraction(mv), di, max(1.0, abs(di))):
-                        ctx.corr_break("C10/grid-basis-derivative", case, {"dim": d, "basis": j, "x": xq, "impl": di, "model": mv})
+                        ctx.corr_break("C10/grid-basis-derivative", rcase, {"dim": d, "basis": j, "x": xq, "impl": di, "model": mv})
                         ok = False
                 except Exception as e:
-                    ctx.violation("basis-derivative", dict(btags, exc=exc_kind(e)), case, {"dim": d, "basis": j, "x": xq, "exception": str(e)[:200]})
+                    ctx.violation("basis-derivative", dict(btags, exc=exc_kind(e)), rcase, {"dim": d, "basis": j, "x": xq, "exception": str(e)[:200]})
                     ok = False
     # ---- interpolate_grid (tensor-grid variant inside the anchored lines)
     if case.get("check_interpolate_grid") and n_nodes:
@@ -736,11 +746,11 @@ def run_grid_case(ctx, drv, case):
             else:
                 ig = g.interpolate_grid([list(g.get_coordinates_dim(d)) for d in range(dim)], start, end, lv)
             if not np.max(np.abs(np.array(ig).T - table)) <= NODE_TOL * relax * scale:
-                ctx.violation("interpolate-grid", dict(tags, kind="nodal-mismatch", outlen=case["outlen"]), case,
+                ctx.violation("interpolate-grid", dict(tags, kind="nodal-mismatch", outlen=case["outlen"]), rcase,
                               {"max_error": float(np.max(np.abs(np.array(ig).T - table)))})
                 ok = False
         except Exception as e:
-            ctx.violation("interpolate-grid", {"kind": exc_kind(e), "global": is_global}, case, {"message": str(e)[:200]})
+            ctx.violation("interpolate-grid", {"kind": exc_kind(e), "global": is_global}, rcase, {"message": str(e)[:200]})
             ok = False
     # (last block: it re-integrates the grid with another function and thereby replaces the stored surpluses)
     # ---- modified B-spline basis (the in-library consumer of the B-spline derivatives): with the boundary functions
@@ -763,14 +773,14 @@ def run_grid_case(ctx, drv, case):
                     ctx.count("modified_linear_checked")
                     if not good:
                         k = int(np.argmax(np.abs(got - want)))
-                        ctx.violation("modified-linear-reproduction", dict(tags), case,
+                        ctx.violation("modified-linear-reproduction", dict(tags), rcase,
                                       {"point": offpts[k], "expected": float(want[k]), "interpolated": float(got[k]),
                                        "function": {"c0": c0, "c": cs}})
                         ok = False
                 else:
                     ctx.count("modified_p_ge5_linear_reproduced" if good else "modified_p_ge5_linear_not_reproduced")
             except Exception as e:
-                ctx.violation("modified-linear-reproduction", dict(tags, kind="exception"), case, {"exception": exc_kind(e), "message": str(e)[:200]})
+                ctx.violation("modified-linear-reproduction", dict(tags, kind="exception"), rcase, {"exception": exc_kind(e), "message": str(e)[:200]})
                 ok = False
     return ok
 
@@ -797,6 +807,86 @@ def gen_poly(r, case, per_dim_levels, per_dim_n):
     case["reason"] = reason
     case["poly"] = [[fs(r.randint(-8, 8) / 4) for _ in range(k)] + [fs(r.choice([-2, -1, 1, 2]) / 2)] for k in degs]
     case["outlen"] = r.choice([1, 2, 3])
+
+
+def graded_tree(r, a, b, npts, mode):
+    """dyadic refinement tree with `npts` points, graded towards a ('left'), towards b ('right'), towards the
+    middle ('mid') or random"""
+    if mode == "random":
+        return rand_tree(r, a, b, npts)
+    pts = [(a, 0), (b, 0)]
+    leaves = [(a, b, 0)]
+    target = {"left": a, "right": b, "mid": (a + b) / 2 + (b - a) / 64}[mode]
+    while len(pts) < npts:
+        cand = [i for i in range(len(leaves)) if leaves[i][2] < 9]
+        if r.random() < 0.75:
+            k = min(cand, key=lambda i: (min(abs(leaves[i][0] - target), abs(leaves[i][1] - target)), -leaves[i][2]))
+        else:
+            k = r.choice(cand)
+        lo, hi, l = leaves.pop(k)
+        m = (lo + hi) / 2
+        pts.append((m, l + 1))
+        leaves += [(lo, m, l + 1), (m, hi, l + 1)]
+    pts.sort()
+    return [q for q, _ in pts], [l for _, l in pts]
+
+
+def gen_history_case(r, thorough):
+    """ONE grid object used for several successive grids with EQUAL point counts (>= 15 in one dimension: the QR branch)
+    but different shape, then the first one again"""
+    is_global = r.random() < 0.8
+    fam = r.choice(GLOBAL if is_global else LOCAL)
+    p = r.choice([1, 2, 3, 5]) if "Lagrange" in fam else r.choice([1, 3, 5])
+    dim = r.choice([1, 1, 2])
+    boundary = True if not is_global else (r.random() < 0.8)
+    a = [r.choice([0, 0, -1]) for _ in range(dim)]
+    b = [a[d] + r.choice([1, 2, 8]) for d in range(dim)]
+    base = {"kind": "grid", "family": fam, "p": p, "boundary": boundary, "modified": False,
+            "a": [fs(x) for x in a], "b": [fs(x) for x in b], "noff": 3, "fkind": "table", "check_interpolate_grid": False}
+    nsteps = r.randint(2, 3)
+    steps = []
+    if is_global:
+        ns = [r.randint(15, 20) if d == 0 else r.choice([3, 4, 5, 15, 16]) for d in range(dim)]
+        if boundary is False:
+            ns = [n + 2 for n in ns]           # interior point count stays >= 15
+        modes = ["left", "right", "mid", "random"]
+        r.shuffle(modes)
+        for k in range(nsteps):
+            points, levels = [], []
+            for d in range(dim):
+                xs, ls = graded_tree(r, float(a[d]), float(b[d]), ns[d], modes[(k + d) % 4])
+                points.append([fs(x) for x in xs])
+                levels.append([int(l) for l in ls])
+            steps.append(dict(base, points=points, levels=levels, tseed=r.randrange(1 << 30), outlen=r.choice([2, 3])))
+    else:
+        lv = [4 if d == 0 else r.choice([1, 2]) for d in range(dim)]
+        for k in range(nsteps):
+            start, end = [], []
+            for d in range(dim):
+                kk = r.choice([1, 2, 4])
+                i = r.randrange(kk)
+                w = (b[d] - a[d]) / kk
+                start.append(a[d] + i * w)
+                end.append(a[d] + (i + 1) * w)
+            steps.append(dict(base, start=[fs(x) for x in start], end=[fs(x) for x in end], lv=lv,
+                              tseed=r.randrange(1 << 30), outlen=r.choice([2, 3])))
+    steps.append(dict(steps[0], tseed=r.randrange(1 << 30)))   # the first grid again
+    return {"kind": "history", "family": fam, "p": p, "steps": steps}
+
+
+def run_history_case(ctx, drv, case):
+    steps = case["steps"]
+    try:
+        g, _, _ = build_grid(steps[0])
+    except Exception as e:
+        ctx.violation("history-construct", {"family": case["family"], "exc": exc_kind(e)}, case, {"message": str(e)[:200]})
+        return False
+    ok = True
+    for k, st in enumerate(steps):
+        ok = run_grid_case(ctx, drv, st, grid_obj=g, report_case=case, step=k) and ok
+        ctx.count("history_steps")
+    ctx.count("history_" + case["family"])
+    return ok
 
 
 def gen_local_case(r, thorough):
@@ -918,6 +1008,8 @@ def run_malformed(ctx, drv):
 def run_case(ctx, drv, case):
     if case["kind"] == "basis":
         return run_basis_case(ctx, drv, case)
+    if case["kind"] == "history":
+        return run_history_case(ctx, drv, case)
     return run_grid_case(ctx, drv, case)
 
 
@@ -932,7 +1024,10 @@ def run(ctx):
                 "(p in 1,2,3,5; boundary on/off; dim 1-3; level vectors; dyadic sub-boxes) and (c) GlobalLagrangeGrid/GlobalBSplineGrid on random "
                 "dyadic refinement trees (3-33 points per dimension, 30% with 13-17 points around the dense/QR switch), each with a vector-valued "
                 "dyadic table or a tensor polynomial; a case is distinct by its full description and non-trivial if the grid has >= 3 nodes or the "
-                "basis >= 2 knots")
+                "basis >= 2 knots; (d) object histories: ONE grid object (hence one HierarchizationLSG inside its integrator) used for 2-3 successive "
+                "grids of equal point counts (15-20 in dimension 0: QR branch) but different shape (graded left / right / middle / random; local: "
+                "successive sub-areas with equal level vector), then the first one again, every step with the full oracle, the model and a fresh "
+                "HierarchizationLSG")
     ctx.assumptions = [
         "numpy.linalg.solve / qr + solve_triangular are modelled as one exact rational solve (Gaussian elimination, proved sound)",
         "that the hierarchical bases span the polynomials of degree <= min(p, complete level + 1) resp. the not-a-knot B-spline degree is validated by the oracle, not proved",
@@ -988,9 +1083,12 @@ def run(ctx):
             break
     stopped_early = False
     while ng < min_grid or left(budget) > 0:
-        case = gen_local_case(r, thorough) if ng % 2 == 0 else gen_global_case(r, thorough)
+        if ng % 8 == 3:
+            case = gen_history_case(r, thorough)      # object histories (at least 18 in quick: min_grid / 8)
+        else:
+            case = gen_local_case(r, thorough) if ng % 2 == 0 else gen_global_case(r, thorough)
         guarded(case)
-        small = {kk: (vv if kk not in ("points", "levels") else [len(x) for x in vv]) for kk, vv in case.items()}
+        small = {kk: (vv if kk not in ("points", "levels", "steps") else [len(x) for x in vv]) for kk, vv in case.items()}
         ctx.case(canon(case), nontrivial=True, sample=small if ng < 3 else None)
         ng += 1
         if (len(ctx.violations) + len(ctx.corr_breaks)) >= 40:
